@@ -29,10 +29,10 @@ RULE = ('file from vt.gen.lis.lis_files (see LEVEL_TEXT); history: up to 10 setF
         'frames lie in >= 2 data records, and a channel subset with a gap.  Distinct = distinct (file, history).')
 ASSUMPTIONS = ['slices are the resolved form every caller passes: 0 <= start < stop <= total frames, step >= 1 (or None for everything); at least one frame selected',
                'code 50 words keep their exponent inside the 11 bit range the decoder implements (known finding C07-lis50-exponent-wrap owns the rest)',
-               'X values and spacing are exactly representable in codes 68/73, frame spacing units equal the depth units',
+               'X values and spacing are exactly representable in codes 68/73; frame spacing units equal the depth units, or are one of 4 pairs with an integral factor (INCH/.1IN, IN/.1IN, FEET/INCH, FEET/.1IN; X compared to 1e-9 relative)',
                'the empty channel subset is exercised for explicit-X log passes (the X channel alone is loaded); with implied X an empty subset reads nothing and is not asserted']
 SHARDS = {'quick': 4, 'thorough': 16}
-REQUIRED_CLASSES = {'implied-x': 1, 'implied-x-in-units-unknown-to-the-unit-table': 1, 'explicit-x': 1, 'load-step>1': 1, 'load-spans>=2-records': 1, 'channel-subset-with-gap': 1,
+REQUIRED_CLASSES = {'implied-x': 1, 'implied-x-spacing-in-other-units-than-x': 1, 'implied-x-in-units-unknown-to-the-unit-table': 1, 'explicit-x': 1, 'load-step>1': 1, 'load-spans>=2-records': 1, 'channel-subset-with-gap': 1,
                     'short-last-record': 1, 'multi-sample-channel': 1, 'dipmeter-channel': 1, 'tif': 1, '>=2-log-passes': 1,
                     'load-enters-record-after-first-frame': 1, 'up-log': 1, 'empty-channel-subset': 1,
                     'type-0-and-type-1-log-pass-interleaved': 1, 'log-pass-without-data-records': 1}
@@ -83,7 +83,7 @@ class PassModel:
         self.matrix = np.array([decode_frame(lp, fr) for fr in lp['frames']], dtype=np.float64) if lp['frames'] else np.zeros((0, 0))
         self.cols = channel_columns(lp)
         sign = -1 if lp['xs']['up_down'] == 1 else 1
-        self.x = [lp['xs']['x0'] + sign * lp['xs']['spacing'] * f for f in range(self.n)]
+        self.x = [lp['xs']['x0'] + sign * lp.get('x_step', lp['xs']['spacing']) * f for f in range(self.n)]
         self.data_lrs = p['data_lrs']
         self.spans = [file_model['lr_span'][k] for k, _f, _n in p['data_lrs']]
         self.dfsr_tell = file_model['lr_start'][p['dfsr_lr']]
@@ -108,6 +108,7 @@ class FileState:
         for pm in self.passes:
             lp = pm.lp
             cc.cls('implied-x', lp['indirect'])
+            cc.cls('implied-x-spacing-in-other-units-than-x', lp['indirect'] and lp.get('spacing_units', lp['units']) != lp['units'])
             cc.cls('implied-x-in-units-unknown-to-the-unit-table', lp['indirect'] and bytes(lp['units']) in (b'SEC ', b'MTR ', b'HRS ', b'DEG '))
             cc.cls('explicit-x', not lp['indirect'])
             cc.cls('up-log', lp['xs']['up_down'] == 1)
@@ -251,7 +252,7 @@ def step(s, op, cc):
                 first_in_rec = i == 0 or pm.record_of(rows[i - 1])[0] != j
                 sig = 'implied-x'
                 if first_in_rec and i > 0 and off > 0:
-                    wrong = fs.xAxisValue(i - 1) + off * sign * pm.lp['xs']['spacing']
+                    wrong = fs.xAxisValue(i - 1) + off * sign * pm.lp.get('x_step', pm.lp['xs']['spacing'])
                     if abs(xg - wrong) <= 1e-9 * (abs(wrong) + 1):
                         sig = 'implied-x:late-entry-extrapolated-from-previous-record'
             else:
@@ -283,7 +284,7 @@ class LoadMachine(HistoryMachine):
     START = staticmethod(start)
     STEP = staticmethod(step)
 
-    @initialize(init=G.lis_files(max_frames=50, pairs=True, empty_passes=True, x_units=G.X_UNITS_WITH_UNKNOWN))
+    @initialize(init=G.lis_files(max_frames=50, pairs=True, empty_passes=True, x_units=G.X_UNITS_WITH_UNKNOWN, spacing_pairs=True))
     def init(self, init):
         self.begin(init)
 
